@@ -63,6 +63,8 @@ Outer(id) ==
     [] id = "fact1" -> << <<"mk", Fun("MK", <<"a">>, Fun("F", <<"x">>, Op("+", X, Var("a"))))>> >>
     [] id = "pvar" -> << <<"f", Fun("F0", <<"x", "y">>, F2Body)>> >>
     [] id \in {"shadow", "nestshadow"} -> << <<"i", Lit(5)>> >>
+    [] id \in {"qshadow", "qalias", "qeqref"} -> << <<"p:n", Lit(5)>> >>
+    [] id = "qother" -> << <<"r:n", Lit(5)>> >>
     [] OTHER -> <<>>
 
 (* the function expression evaluated once per iteration *)
@@ -102,6 +104,14 @@ FExpr(id) ==
     [] id = "bodysome" -> Fun("F", <<"x">>, Some("q", Lits(<<1, 2>>), Op("eq", Op("*", Var("q"), Iv), Op("*", X, Lit(10)))))
     [] id = "bodyfor" -> Fun("F", <<"x">>, For("q", Lits(<<1, 2>>), Op("+", Op("+", Var("q"), Iv), X)))
     [] id = "bodypart" -> Fun("F", <<"x">>, Call(Call(Fun("G", <<"p", "q">>, Op("*", Var("p"), Var("q"))), <<Hole, Iv>>), <<X>>))
+    (* QName-valued variable names (prefixes p, q -> urn:p; r -> urn:r): a parameter shadows an outer variable of
+       the same EXPANDED name only; $p:n, $q:n and $Q{urn:p}n are one variable *)
+    [] id = "qshadow" -> Fun("F", <<"p:n">>, Op("+", Op("*", Var("p:n"), Lit(2)), Iv))
+    [] id = "qother" -> Fun("F", <<"p:n">>, Op("+", Op("+", Op("*", Var("p:n"), Lit(2)), Var("r:n")), Iv))
+    [] id = "qeqparam" -> Fun("F", <<"Q{urn:p}n">>, Op("+", Var("p:n"), Iv))
+    [] id = "qalias" -> Fun("F", <<"x">>, Op("+", Op("+", Var("q:n"), X), Iv))            \* captured $p:n read as $q:n
+    [] id = "qeqref" -> Fun("F", <<"x">>, Op("+", Op("+", Var("Q{urn:p}n"), X), Iv))       \* ... as $Q{urn:p}n
+    [] id = "qparamalias" -> Fun("F", <<"p:n">>, Op("+", Var("q:n"), Iv))                \* parameter $p:n read as $q:n
     (* parameters with DIFFERENT declared types (for partial applications with a non-leading placeholder) *)
     [] id = "typ2" -> TFun("F", <<"a", "b">>, <<"xs:string", "xs:integer">>, Cat(Var("a"), Op("+", Var("b"), Iv)))
     [] id = "typd" -> TFun("F", <<"a", "b">>, <<"xs:double", "xs:integer">>,
@@ -119,6 +129,7 @@ FocusTpls == {"refpos", "refstr", "refslen", "refnlen", "refname"}
 DocTpls == {"refnlen", "refname"}          \* the items are the element children of the fixed document
 TypedTpls == {"typ2", "typd", "typ3"}
 CurryTpls == {"curry"}                     \* called with two argument lists: $f(a)(b)
+QNameTpls == {"qshadow", "qother", "qeqparam", "qalias", "qeqref", "qparamalias"}   \* need namespaces= p, q, r
 V31Tpls == {"bodyarr", "bodymap"}          \* array / map constructors: XPath 3.1 only
 CallOf(curried, f, args) == IF curried THEN Call(Call(f, <<args[1]>>), <<args[2]>>) ELSE Call(f, args)
 ScopeKind(id) == CASE id = "let1" -> "let" [] id = "fact1" -> "factory" [] id \in FocusTpls -> "map" [] OTHER -> "for"
@@ -135,7 +146,7 @@ CreateExpr(id, vals) == CreateWith(id, vals, FExpr(id))
 
 RECURSIVE BindOuter(_, _)
 BindOuter(bs, env) ==
-  IF bs = <<>> THEN env ELSE BindOuter(Tail(bs), Ext(env, Head(bs)[1], Eval(Head(bs)[2], env)))
+  IF bs = <<>> THEN env ELSE BindOuter(Tail(bs), Ext(env, Canon(Head(bs)[1]), Eval(Head(bs)[2], env)))
 Env0(id, k) == LET e == BindOuter(Outer(id), EmptyEnv) IN
                Ext(e, "fs", Eval(CreateExpr(id, SubSeq(Vals, 1, k)), e))
 
@@ -162,7 +173,7 @@ Def(id, k, evs) == DefRun(evs, Env0(id, k), k, <<>>)
 RECURSIVE OuterI(_, _), ImplRun(_, _, _, _, _)
 OuterI(bs, m) ==
   IF bs = <<>> THEN m
-  ELSE LET r == EvalI(Head(bs)[2], m) IN OuterI(Tail(bs), [r.m EXCEPT !.d = Ext(r.m.d, Head(bs)[1], r.v)])
+  ELSE LET r == EvalI(Head(bs)[2], m) IN OuterI(Tail(bs), [r.m EXCEPT !.d = Ext(r.m.d, StoreI(Head(bs)[1]), r.v)])
 ImplRun(evs, m, nh, acc, dead) ==
   IF evs = <<>> THEN acc
   ELSE LET e == Head(evs) IN
@@ -344,7 +355,11 @@ TypedLaw ==
 NestedCaptures ==
   (n >= 1 /\ ItemKind(tpl) = "inline" /\ tpl \notin {"fact1", "let1"}) =>
      \A h \in 1..n : "i" \in DOMAIN Env0(tpl, n).fs[h].env
-Laws == NestedCaptures /\ SameCallSameResult /\ HistoryIndependent /\ ClosuresIndependent /\ Captures /\ PartialLaw /\ NamedLaw
+QNameLaw == /\ Canon("p:n") = Canon("q:n") /\ Canon("q:n") = Canon("Q{urn:p}n")
+            /\ Canon("r:n") # Canon("p:n") /\ Canon("n") # Canon("p:n")
+            /\ (tpl = "qshadow" /\ n >= 1 => Apply(Env0(tpl, n).fs[1], << <<I(3)>> >>) = <<I(3 * 2 + Vals[1])>>)
+            /\ (tpl = "qalias" /\ n >= 1 => Apply(Env0(tpl, n).fs[1], << <<I(3)>> >>) = <<I(5 + 3 + Vals[1])>>)
+Laws == QNameLaw /\ NestedCaptures /\ SameCallSameResult /\ HistoryIndependent /\ ClosuresIndependent /\ Captures /\ PartialLaw /\ NamedLaw
           /\ FocusLaw /\ TypedLaw
 
 (* the implementation-shaped model: TLC must REFUTE this (expected counterexample) *)
@@ -361,7 +376,7 @@ DirectArgs(id, h) ==
 TemplateTable ==
   [id \in Templates |->
      [outer |-> Outer(id), scope |-> ScopeKind(id), kind |-> ItemKind(id), collision |-> Collides(id),
-      doc |-> id \in DocTpls, typed |-> id \in TypedTpls, v31 |-> id \in V31Tpls,
+      ns |-> id \in QNameTpls, doc |-> id \in DocTpls, typed |-> id \in TypedTpls, v31 |-> id \in V31Tpls,
       create |-> [k \in 1..MaxN |-> CreateExpr(id, SubSeq(Vals, 1, k))],
       direct |-> [h \in 1..MaxN |-> IF id \in CurryTpls THEN Nil ELSE Direct(id, h, <<Var("__ARGS__")>>)],
       directs |-> {[h |-> h, args |-> a, val |-> DirectVal(id, h, a), ival |-> DirectImpl(id, h, a)] :
